@@ -186,9 +186,16 @@ def ownership_rules(prog, res, rule_prefix='own'):
         for f in prog.repo_funcs():
             if f.cls == q and f.kind == 'ctor' and not f.rec.get('copy') and not f.rec.get('move'):
                 for h in a['handles']:
-                    if not any(g is f for g, _, _ in _c18.field_writes(prog, q, h)):
-                        res.viol(R('fresh-handle'), '%s::%s' % (q, h), f.loc(), 'constructor leaves the handle empty', function=f.sig, expr=h + ':ctor')
-    res.minimum('handle writes in copyable handle classes', nwrites, 4)
+                    ws_ = _c18.field_writes(prog, q, h)
+                    if any(g is f for g, _, _ in ws_):
+                        continue
+                    # ... or through a member of the class that it calls (the cloning add())
+                    reach_ = prog.reachable_from([f])
+                    if any(g.usr in reach_ and g.cls == q for g, _, _ in ws_):
+                        res.ok(R('fresh-handle'), '%s::%s set through a member the constructor calls' % (q, h), f.loc(), function=f.sig, expr=h + ':ctor', nontrivial=False)
+                        continue
+                    res.viol(R('fresh-handle'), '%s::%s' % (q, h), f.loc(), 'constructor leaves the handle empty', function=f.sig, expr=h + ':ctor')
+    res.minimum('handle writes in copyable handle classes', nwrites, 2)
 
     # (no-alias-copy) no copy of an aliasing class object lands in object-owned storage --------
     ncopies = 0
